@@ -214,8 +214,10 @@ impl RoutePattern {
                         if collected.is_empty() {
                             return None;
                         } else {
-                            param_map
-                                .insert(segment_decoded.decode_utf8_lossy().to_string(), collected);
+                            param_map.insert(
+                                segment.segment_str(pattern.as_str()).to_string(),
+                                collected,
+                            );
                         }
                     } else if !part_decoded.eq(segment_decoded) {
                         return None;
